@@ -139,3 +139,27 @@ Theorem rl_no_ub : forall s, reachable G_strict s ->
   (forall t u, ~ In (EvUB u) (snd (wake s t))).
 Proof. exact rl_no_ub_proof. Qed.
 Print Assumptions rl_no_ub.
+
+(* at quiescence of every scripted run every still-blocked thread sleeps on a live node that conflicts with its request *)
+Theorem rl_quiescent : forall (G : op -> Prop) cs, Forall G cs ->
+  let s := fst (run_ops init_state cs) in
+  ready s = [] /\
+  forall t p, In (t, p) (pend s) -> exists e, In e (idx s) /\ In t (e_wait e) /\ conflict p e.
+Proof. exact rl_quiescent_proof. Qed.
+Print Assumptions rl_quiescent.
+
+(* waiters proceed when the conflict is gone: unlock(handle) of the node a lock() caller sleeps on makes it runnable,
+   and when it resumes it acquires its range provided no other held range shares a byte with it *)
+Theorem rl_handoff : forall s t0 t p a e b,
+  inv s -> winv s ->
+  idx s = a ++ e :: b -> In t (e_wait e) -> lookup_pend t (pend s) = Some p -> p_kind p = KL ->
+  Forall (fun x => nosat (e_off x) (e_len x)) (idx s) -> Forall (fun x => nonempty (e_off x) (e_len x)) (idx s) ->
+  u64 (p_off p) -> u64 (p_len p) -> nosat (p_off p) (p_len p) -> nonempty (p_off p) (p_len p) ->
+  (forall x y, In x (a ++ b) -> byte_in y x -> p_off p <= y < p_off p + p_len p -> False) ->
+  let s1 := fst (unlock_handle s t0 (e_id e)) in
+  In t (ready s1) /\
+  forall r1 r2, ready s1 = r1 ++ t :: r2 ->
+    exists s2 pre post, wake (set_ready s1 (r1 ++ r2)) t = (s2, [EvAcq t KL (nid s)]) /\
+                        idx s2 = pre ++ mkE (p_off p) (p_len p) (nid s) [] :: post /\ a ++ b = pre ++ post.
+Proof. exact rl_handoff_proof. Qed.
+Print Assumptions rl_handoff.
